@@ -2,6 +2,7 @@ import SJ.Proofs.FromValue
 import SJ.Model.FromValueRoutes
 import SJ.Proofs.Schema
 import SJ.Proofs.TypedAgreeAll
+import SJ.Proofs.TypedAgreeExcl
 import SJ.Proofs.RoundTrip
 import SJ.Props.C03
 /-!
@@ -161,7 +162,10 @@ example : (SJ.Gen.routeRef.lookup "deserialize_char") = some "->deserialize_str"
     returns (`hF` — C04's named hypothesis `FloatsRoundTrip`, as the statement says: "comparisons involving f64 assume
     float_roundtrip or short float literals"; it is discharged from `RyuShortest` under `float_roundtrip`:
     `c16_text_agrees_fr`, and is vacuous without floats: `c16_text_agrees_nofloat`), within the parser's depth budget and
-    outside the statement's exclusion "a struct variant written as an array" (`hasArrayPayload`): `to_string(v)` succeeds and
+    outside the statement's exclusion "a struct variant written as an array" (`hx`: `Schema.svArr s v = false`, schema-directed
+    — `Spec/SchemaExcl.lean`: no enum target with a struct variant `name` meets the single-key object `{name: [...]}` on the way
+    the deserializers visit the value; an object of that form anywhere else, e.g. under a `Map<String, Vec<u8>>` target, is
+    inside the theorem): `to_string(v)` succeeds and
     `from_str::<T>` of that text (typed deserializer + `end()`, any source) returns exactly what `from_value::<T>(v)`
     returns, and fails whenever it fails — matching and mismatching values alike (an integer into `f64`: `as f64` on both
     sides; a float into an integer, bool, string, container … target: refused on both sides). Together with
@@ -180,7 +184,7 @@ theorem c16_text_agrees_partial (mcfg : Model.Machine.Cfg) (hap : mcfg.ap = fals
     (v : JV) (hv : Spec.WF.shapeOK (Proofs.CanonM.specCfg mcfg) v = true)
     (hF : Spec.WF.floatsRT (Proofs.CanonM.specCfg mcfg) ext v = true)
     (h128 : Proofs.Typed.has128 s = false ∨ Proofs.Typed.floatsPointed ext v = true)
-    (hx : v.hasArrayPayload s.structVariantNames = false)
+    (hx : s.svArr v = false)
     (hd : mcfg.limitOff = true ∨ Spec.WF.depthJV v ≤ 127) :
     ∃ bufs, Model.Ser.serCompact ext (Model.Ser.ofValue v) = .ok bufs ∧
       (match fromValue { po := mcfg.po, fr := mcfg.fr, ap := false } ext' s v with
@@ -190,9 +194,9 @@ theorem c16_text_agrees_partial (mcfg : Model.Machine.Cfg) (hap : mcfg.ap = fals
   obtain ⟨⟨bufs, hser, htext⟩, _⟩ := SJ.Props.C03.c03_value ext hext v hl
   refine ⟨bufs, hser, ?_⟩
   rw [htext]
-  have hag := Proofs.Typed.agree_all ext hext (env := { cfg := mcfg, src := src }) rfl hap
-    { po := mcfg.po, fr := mcfg.fr, ap := false } rfl ext' s.structVariantNames (Model.Typed.Schema.size s + 1) s (by omega) hs
-    (fun _ h => h) 0 v (Proofs.Typed.shapeW_of_shapeOK _ hap v hv) hF
+  have hag := Proofs.Typed.agree_all_x ext hext (env := { cfg := mcfg, src := src }) rfl hap
+    { po := mcfg.po, fr := mcfg.fr, ap := false } rfl ext' (Model.Typed.Schema.size s + 1) s (by omega) hs
+    0 v (Proofs.Typed.shapeW_of_shapeOK _ hap v hv) hF
     (by rcases hd with h | h
         · exact .inl h
         · exact .inr (by omega)) hx hv h128 [] 0 (.inl rfl)
@@ -222,7 +226,7 @@ theorem c16_text_agrees_partial (mcfg : Model.Machine.Cfg) (hap : mcfg.ap = fals
 theorem c16_text_agrees_nofloat (mcfg : Model.Machine.Cfg) (hap : mcfg.ap = false) (src : Model.Machine.Src)
     (ext : Spec.Program.Ext) (hext : Spec.Program.ExtOK ext) (ext' : Ext) (s : Schema) (hs : Proofs.Typed.agreeFrag2 s = true)
     (v : JV) (hv : Spec.WF.shapeOK (Proofs.CanonM.specCfg mcfg) v = true ∧ Spec.WF.noFloat v = true)
-    (hx : v.hasArrayPayload s.structVariantNames = false)
+    (hx : s.svArr v = false)
     (hd : mcfg.limitOff = true ∨ Spec.WF.depthJV v ≤ 127) :
     ∃ bufs, Model.Ser.serCompact ext (Model.Ser.ofValue v) = .ok bufs ∧
       (match fromValue { po := mcfg.po, fr := mcfg.fr, ap := false } ext' s v with
@@ -331,18 +335,44 @@ example : fromValue {} {} (.int .i128) (.num (.float 0x4415af1d78b58c40)) = .err
 `from_value` and `&Value` refuse it (`VariantDeserializer::tuple_variant` answers an EMPTY array with `visitor.visit_unit()`,
 which derive's tuple-variant visitor does not implement), `from_str` accepts it (`deserialize_seq` + `visit_seq` taking no
 element). The three paths disagree — exactly the case the statement names as outside the claim ("zero-length tuple variants …
-accepted from text only"), so the executable statement skips it (`c16Excluded`) and `agreeFrag2` excludes it. A zero-length
+accepted from text only"), so the executable statement skips it (`c16Excluded2`) and `agreeFrag2` excludes it. A zero-length
 TUPLE (`[T; 0]`, a tuple struct without fields; schema `T0;`) is inside the claim and inside the theorem: `[]` is accepted by all
 three, anything else refused by all three. -/
 example : fromValue {} {} (.enum_ [([0x5a], .tuple []), ([0x55], .unit)]) (.obj [([0x5a], .arr [])]) = .error () ∧
     fromValueRef {} {} (.enum_ [([0x5a], .tuple []), ([0x55], .unit)]) (.obj [([0x5a], .arr [])]) = .error () ∧
     (match Model.Typed.deTypedTop {} (.enum_ [([0x5a], .tuple []), ([0x55], .unit)]) [0x7b, 0x22, 0x5a, 0x22, 0x3a, 0x5b, 0x5d, 0x7d] with
       | .ok t => t == .variant 0 (.seq []) | _ => false) = true ∧
-    c16Excluded (.enum_ [([0x5a], .tuple []), ([0x55], .unit)]) (.obj [([0x5a], .arr [])]) = true :=
+    c16Excluded2 (.enum_ [([0x5a], .tuple []), ([0x55], .unit)]) (.obj [([0x5a], .arr [])]) = true :=
   ⟨rfl, rfl, by decide +kernel, by decide⟩
 example : fromValue {} {} (.tuple []) (.arr []) = .ok (.seq []) ∧ fromValueRef {} {} (.tuple []) (.arr []) = .ok (.seq []) ∧
     (match Model.Typed.deTypedTop {} (.tuple []) [0x5b, 0x5d] with | .ok t => t == .seq [] | _ => false) = true ∧
-    Proofs.Typed.agreeFrag2 (.tuple []) = true ∧ c16Excluded (.tuple []) (.arr []) = false :=
+    Proofs.Typed.agreeFrag2 (.tuple []) = true ∧ c16Excluded2 (.tuple []) (.arr []) = false :=
   ⟨rfl, rfl, by decide +kernel, by decide, by decide⟩
+
+/-! ## the exclusion "a struct variant written as an array" is schema-directed
+
+The audit's witness: `(Map<String, Vec<u8>>, enum { S { x: bool } })` on `[{"S":[1]}, {"S":{"x":true}}]` — the object `{"S":[1]}`
+sits under the MAP target, where `S` is just a key; the former exclusion (`JV.hasArrayPayload` over the names of all struct
+variants of the schema) dropped the pair, `Schema.svArr` keeps it, and the theorem applies: both sides succeed with the same
+result. The excluded case itself — the ENUM target on `{"S":[true]}` — is refused by `from_value` and accepted from text. -/
+def exWSchema : Schema := .tuple [.map .string (.seq (.int .u8)), .enum_ [([0x53], .struct_ [([0x78], .bool)])]]
+def exWValue : JV := .arr [.obj [([0x53], .arr [.num (.pos 1)])], .obj [([0x53], .obj [([0x78], .bool true)])]]
+
+example : exWSchema.svArr exWValue = false ∧ exWValue.hasArrayPayload exWSchema.structVariantNames = true ∧
+    c16Excluded2 exWSchema exWValue = false := by decide
+example : ∃ bufs, Model.Ser.serCompact extE (Model.Ser.ofValue exWValue) = .ok bufs ∧
+    Model.Typed.deTypedTop { cfg := {}, src := .slice } exWSchema bufs.flatten =
+      .ok (.seq [.map [(.str [0x53], .seq [.int 1])], .variant 0 (.struct_ [.bool true])]) := by
+  have h := c16_text_agrees_nofloat {} rfl .slice extE extE_ok {} exWSchema (by decide) exWValue ⟨by decide, by decide⟩ (by decide)
+    (.inr (by decide))
+  have hv : fromValue { po := false, fr := false, ap := false } {} exWSchema exWValue =
+      .ok (.seq [.map [(.str [0x53], .seq [.int 1])], .variant 0 (.struct_ [.bool true])]) := by rfl
+  obtain ⟨bufs, h1, h2⟩ := h
+  rw [hv] at h2
+  exact ⟨bufs, h1, h2⟩
+example : (Schema.enum_ [([0x53], .struct_ [([0x78], .bool)])]).svArr (.obj [([0x53], .arr [.bool true])]) = true ∧
+    fromValue {} {} (.enum_ [([0x53], .struct_ [([0x78], .bool)])]) (.obj [([0x53], .arr [.bool true])]) = .error () ∧
+    (match Model.Typed.deTypedTop {} (.enum_ [([0x53], .struct_ [([0x78], .bool)])]) [0x7b, 0x22, 0x53, 0x22, 0x3a, 0x5b, 0x74, 0x72, 0x75, 0x65, 0x5d, 0x7d] with
+      | .ok t => t == .variant 0 (.struct_ [.bool true]) | _ => false) = true := ⟨by decide, rfl, by decide +kernel⟩
 
 end SJ.Props.C16
